@@ -3,3 +3,4 @@ import SdxModel.Interval
 import SdxModel.Hash
 import SdxModel.Anonymizer
 import SdxModel.Counters
+import SdxModel.Synth
